@@ -21,18 +21,36 @@ use std::time::{Duration, Instant};
 pub enum Event {
     /// an element pointer was looked up (it "escapes" if the lock is free at
     /// the next schedule point)
-    PtrObtained { addr: usize },
+    PtrObtained {
+        addr: usize,
+    },
     /// the pointer is about to be read through; `stale` = a realloc / free
     /// covering `addr` happened after it was obtained
-    PtrUse { addr: usize, stale: bool },
-    PtrUseFinished { addr: usize },
+    PtrUse {
+        addr: usize,
+        stale: bool,
+    },
+    PtrUseFinished {
+        addr: usize,
+    },
     /// `realloc_array` was called on `[old, old+old_bytes)`
-    Realloc { old: usize, old_bytes: usize, new: usize, new_bytes: usize },
+    Realloc {
+        old: usize,
+        old_bytes: usize,
+        new: usize,
+        new_bytes: usize,
+    },
     /// `dealloc_array` was called on `[base, base+bytes)`
-    Free { base: usize, bytes: usize },
+    Free {
+        base: usize,
+        bytes: usize,
+    },
     /// a thread parked at a schedule point while holding an element pointer
     /// whose list's mutex was free: the pointer outlived its critical section
-    PtrOutsideLock { addr: usize, site: &'static str },
+    PtrOutsideLock {
+        addr: usize,
+        site: &'static str,
+    },
 }
 
 /// `try_lock` probe for the mutex a parked thread is about to take.
@@ -218,7 +236,11 @@ impl Session {
     /// Let thread `tid` run from its schedule point to the next one (or to
     /// the end of its program). Returns how the step ended and the events it
     /// emitted.
-    pub fn grant(&self, tid: usize, limit: Duration) -> (StepEnd, Vec<Event>) {
+    pub fn grant(
+        &self,
+        tid: usize,
+        limit: Duration,
+    ) -> (StepEnd, Vec<Event>) {
         let deadline = Instant::now() + limit;
         let mut g = self.inner.lock().unwrap();
         let from = g.events.len();
@@ -262,7 +284,8 @@ impl Session {
                 let free = unsafe { (p.is_free)(p.mutex) };
                 if free {
                     let addr = g.held[tid][0].addr;
-                    g.events.push((tid, Event::PtrOutsideLock { addr, site }));
+                    g.events
+                        .push((tid, Event::PtrOutsideLock { addr, site }));
                 }
             }
         }
